@@ -123,6 +123,9 @@ func RunC08(p *harness.Program, thorough bool) Result {
 		if v := openFaultPhase(ref, c); v != nil {
 			return Result{V: v, Counters: c}
 		}
+		if v := shrinkReleaseFaults(p.Cfg, aux(p, 1), c); v != nil {
+			return Result{V: v, Counters: c}
+		}
 	}
 
 	nontrivial := false
@@ -489,8 +492,8 @@ func abandonedTxAfterTolerantOpen(d *simdisk.Disk, ropts txfile.Options, model *
 	}
 	n := 0
 	for _, mp := range model.Pages {
-		if mp.Data == nil || n >= 6 {
-			continue
+		if mp.Data == nil || n >= 40 {
+			continue // (enough overwrites to use every free page of the meta area for write-ahead pages)
 		}
 		if pg, err := tx.Page(mp.ID); err == nil {
 			pg.SetBytes(harness.Content(970000+n, ps))
@@ -530,4 +533,132 @@ func abandonedTxAfterTolerantOpen(d *simdisk.Disk, ropts txfile.Options, model *
 		vv.Msg = "a transaction that flushed pages was abandoned after the Open, then the file was reopened: " + vv.Msg
 	}
 	return vv
+}
+
+// shrinkReleaseFaults: a shrinking open that runs the optional second open-time transaction (free
+// regions at the end of the file reach beyond the new limit and are released), with every I/O call
+// of that Open failing once (bursts 1-2). The release transaction is allowed to fail: Open then
+// succeeds, and the returned File must behave exactly like the committed state says: contents,
+// allocator partition, allocations (a full allocate-everything transaction with ownership checks),
+// an abandoned flushing transaction followed by a reopen. If Open fails, the lock is released and
+// a clean reopen shows the committed state.
+func shrinkReleaseFaults(cfg harness.Config, seed uint64, c map[string]int) (v *harness.Violation) {
+	defer func() {
+		if x := recover(); x != nil {
+			v = &harness.Violation{Clause: "open-fault-panic", Item: -1, Msg: fmt.Sprintf("shrinking open under an injected I/O failure: panic: %v [%s]", x, harness.TrimStack(debug.Stack()))}
+		}
+	}()
+	rnd := harness.NewRand(seed ^ 0x5eed)
+	ps := uint64(cfg.PageSize)
+	minPages := 65536 / ps
+	total := minPages + 40 + rnd()%80
+	used := int(total) - 10 - int(rnd()%20) // pages allocated by the first transaction
+	tail := 12 + int(rnd()%24)              // pages freed at the end by the second
+	if tail > used-8 {
+		tail = used - 8
+	}
+	newMax := uint64(used-tail) + 2 + 1 + rnd()%uint64(tail-2) // inside the freed tail region (+2 header pages)
+	if newMax < minPages {
+		newMax = minPages
+	}
+	// first transaction: allocate the pages and write each of them (new pages need no write-ahead page)
+	first := []harness.Op{{K: harness.OpAlloc, A: used}}
+	for i := 0; i < used; i++ {
+		first = append(first, harness.Op{K: harness.OpWrite, A: i, B: 0, C: 7000 + i})
+	}
+	prog := &harness.Program{Cfg: harness.Config{PageSize: cfg.PageSize, MaxPages: uint(total), InitMeta: 16, Prealloc: rnd()%3 == 0}, Items: []harness.Item{
+		{Tx: &harness.Tx{Ops: first, End: harness.EndCommit}},
+		{Tx: &harness.Tx{Ops: []harness.Op{{K: harness.OpFreeMany, A: used - tail, B: tail, C: 1}, {K: harness.OpWriteMany, A: int(rnd() % 16), B: int(rnd() % 5), C: 9}}, End: harness.EndCommit}},
+	}}
+	r, v := harness.NewRunner(prog, harness.RunOpts{Drain: true, CheckContent: true})
+	if v != nil {
+		return v
+	}
+	if v = r.Run(); v != nil {
+		return v
+	}
+	img, model := r.Disk.Image(), r.C
+	ropts := txfile.Options{Flags: txfile.FlagUpdMaxSize, MaxSize: newMax * ps, Prealloc: rnd()%3 == 0}
+
+	d0 := simdisk.FromImage("shrink0", img)
+	d0.SetRecord(false)
+	d0.Arm(nil)
+	f0, err := txfile.VerifOpen(d0, ropts)
+	if err != nil {
+		return &harness.Violation{Clause: "reopen", Item: -1, Msg: fmt.Sprintf("shrinking open (max %d -> %d pages) failed without any fault: %v", total, newMax, err)}
+	}
+	counts := d0.Counts()
+	if s0 := f0.VerifState(); uint64(s0.DataEnd) < uint64(used)+2 {
+		c["shrink-release-ran"]++
+	}
+	f0.Close()
+	for _, k := range []simdisk.CallKind{simdisk.CallWrite, simdisk.CallSync, simdisk.CallTruncate, simdisk.CallSize, simdisk.CallMMap} {
+		for ord := 0; ord < counts[k]; ord++ {
+			for burst := 1; burst <= 2; burst++ {
+				fault := simdisk.Fault{Kind: k, Ordinal: ord, Burst: burst, NoSpace: rnd()%2 == 0}
+				if k == simdisk.CallWrite && rnd()%2 == 0 {
+					fault.Mode = simdisk.FailShort
+				}
+				desc := fmt.Sprintf("shrinking open (max %d -> %d pages, %d pages freed at the end) with failing %s call #%d burst %d", total, newMax, tail, k, ord, burst)
+				d := simdisk.FromImage("shrinkfault", img)
+				d.SetRecord(false)
+				fc := fault
+				d.Arm(&fc)
+				f, err := txfile.VerifOpen(d, ropts)
+				c["shrink-open-fault-runs"]++
+				if err != nil {
+					if d.Locked() || d.LiveViews() != 0 {
+						return &harness.Violation{Clause: "open-fault-lock", Item: -1, Msg: desc + ": Open failed but left the file locked or mapped"}
+					}
+					d.Arm(nil)
+					if f, err = txfile.VerifOpen(d, txfile.Options{}); err != nil {
+						return &harness.Violation{Clause: "reopen-after-faults", Item: -1, Msg: fmt.Sprintf("%s: Open failed; the next clean Open failed too: %v", desc, err)}
+					}
+					vv := harness.VerifyAgainst(f, model, -1)
+					f.Close()
+					if vv != nil {
+						vv.Msg = desc + ": Open failed; after a clean reopen: " + vv.Msg
+						return vv
+					}
+					continue
+				}
+				if d.Injected() == 0 {
+					f.Close()
+					continue
+				}
+				c["shrink-open-fault-tolerated"]++
+				d.Arm(nil)
+				// the File must behave like the committed state: contents, partition, allocation of everything that is left
+				snap := f.VerifState()
+				vv := harness.VerifyAgainst(f, model, -1)
+				if vv == nil {
+					vv = harness.CheckPartition(&snap, model, -1, false)
+				}
+				if vv == nil {
+					suffix := &harness.Program{Cfg: prog.Cfg, Items: []harness.Item{
+						{Tx: &harness.Tx{Ops: []harness.Op{{K: harness.OpFill, A: 0}, {K: harness.OpWriteMany, A: 3, B: 4, C: 11}}, End: harness.EndRollback}},
+						{Tx: &harness.Tx{Ops: []harness.Op{{K: harness.OpAlloc, A: 3}, {K: harness.OpWrite, A: 1 << 20, C: 12}, {K: harness.OpWriteMany, A: 5, B: 3, C: 13}, {K: harness.OpFree, A: 2}}, End: harness.EndCommit}},
+						{Reopen: &harness.Reopen{Mode: 0}},
+						{Tx: &harness.Tx{Ops: []harness.Op{{K: harness.OpAlloc, A: 2}, {K: harness.OpWriteMany, A: 0, B: 2, C: 14}}, End: harness.EndCommit}},
+					}}
+					sr := harness.NewRunnerOn(suffix, harness.RunOpts{CheckContent: true, CheckOwnership: true, Drain: true}, d, f, model)
+					vv = sr.Run()
+				} else {
+					f.Close()
+				}
+				if vv == nil {
+					d2 := simdisk.FromImage("shrinkfault2", img)
+					d2.SetRecord(false)
+					fc2 := fault
+					d2.Arm(&fc2)
+					vv = abandonedTxAfterTolerantOpen(d2, ropts, model, int(ps))
+				}
+				if vv != nil {
+					vv.Msg = desc + ": Open returned success, but: " + vv.Msg
+					return vv
+				}
+			}
+		}
+	}
+	return nil
 }
